@@ -68,6 +68,10 @@ def gen_call(rng, N, have_forward):
     return dict(call='repeat')
 
 
+class ArgumentModified(Exception):
+    pass
+
+
 def do_call(ap, cg, fx, fys, c, last_forward, rng_seed_base, store=None):
     """perform call c on graph (cg, fx, fys); returns result (list of arrays) or None.  store: the caller's reusable argument objects"""
     if c['call'] == 'forward':
@@ -83,7 +87,10 @@ def do_call(ap, cg, fx, fys, c, last_forward, rng_seed_base, store=None):
             x = xa if c['kind'] == 'ndarray' else ap.UTPM(xa)
             if store is not None:
                 store[key] = x
-        return [numpy.array(data_of(y), copy=True) for y in cg.function([x])]
+        res = [numpy.array(data_of(y), copy=True) for y in cg.function([x])]
+        if not numpy.array_equal(data_of(x), xa):
+            raise ArgumentModified('cg.function modified the argument object it was given')
+        return res
     if c['call'] == 'reverse':
         lf = last_forward
         x = ap.UTPM(numpy.array(lf['x']))
